@@ -1,6 +1,6 @@
 package main
 
-var authDeviations = []string{"cd.type", "cd.challenge", "cd.origin", "cd.malformed", "ad.rpIdHash", "ad.noUP", "ad.noUV", "sig.otherKey", "sig.otherMessage",
+var authDeviations = []string{"cd.type", "cd.challenge", "cd.origin", "cd.malformed", "cd.memberAbsent", "ad.rpIdHash", "ad.noUP", "ad.noUV", "sig.otherKey", "sig.otherMessage",
 	"sig.authDataOnly", "sig.bitflip", "sig.empty", "tamper.authData", "tamper.cdj", "id.unknown", "userHandle.foreign", "userHandle.missing", "userHandle.empty", "userHandle.lengthVariant", "cd.challengeLengthVariant", "allow.excludes", "allow.lengthVariant"}
 
 func authCase(c *Ctx, stream string, alg int, devs ...string) {
